@@ -268,10 +268,11 @@ impl Segments {
         }
     }
 
-    // // Named like in rfc9293 SND.NEXT
-    // pub fn next_seq_nr(&self) -> SeqNr {
-    //     self.snd_una + self.segments.len() as u16
-    // }
+    // The sequence number the next enqueued segment will get. Named like in rfc9293 SND.NEXT,
+    // except that it also counts segments that are queued but not sent yet.
+    pub fn next_seq_nr(&self) -> SeqNr {
+        self.snd_una + self.segments.len() as u16
+    }
 
     pub fn first_seq_nr(&self) -> Option<SeqNr> {
         if self.segments.is_empty() {
